@@ -541,6 +541,14 @@ theorem nchangeState_sync (hwf : cfg.states.WF = true) (hC : NoCmds sc) (hI : In
     intro _ s1 _ s' h
     exact (enterAll_sync hC hI x r.enters _ hen s' h).congr rfl rfl rfl rfl
 
+theorem nfinalStage_sync (hC : NoCmds sc) (scope : Scope) (x : Ctx) (dest : Option SPath) (conf0 : Forest) (s : NSt) :
+    PresS cfg (nfinalStage sub sc cfg scope x dest conf0 s) s := by
+  rcases nfinalStage_cases sub sc cfg scope x dest conf0 s with h1 | ⟨cbs, h1⟩ | ⟨e, _, h1⟩ | h1 <;> rw [h1]
+  · exact PresS.ok (Sync.refl _ _)
+  · exact ncallbacks_sync_quiet hC _ x cbs s (fun _ _ _ _ _ => rfl)
+  · exact PresS.err (Sync.refl _ _)
+  · exact PresS.oof
+
 theorem nexecute_sync (hwf : cfg.states.WF = true) (hC : NoCmds sc) (hI : Instrumented cfg) (scope : Scope)
     (hw : cfg.root.walkTo scope.pre = some scope) (x : Ctx) (tr : TRef) (t : NTrans) (hm : (tr, t) ∈ allTrans cfg)
     (s : NSt) : PresS cfg (nexecute sub sc cfg scope x tr t s) s := by
@@ -565,6 +573,8 @@ theorem nexecute_sync (hwf : cfg.states.WF = true) (hC : NoCmds sc) (hI : Instru
     · split
       · exact nchangeState_sync hwf hC hI scope hw x _ s4
       · exact PresS.ok (Sync.refl _ _)
+    intro _ s5 _
+    refine PresS.bind (nfinalStage_sync hC scope x _ _ s5) ?_
     intro _ s5 _
     refine PresS.bind (ncallbacks_sync_quiet hC _ x _ s5 (fun _ _ _ _ _ => rfl)) ?_
     intro _ s6 _
